@@ -400,12 +400,24 @@ static void pr_args(struct uftrace_fstack_args *args)
 			size = spec->size;
 		}
 		else {
-			long long val = 0;
+			unsigned long long val, hi;
+			int lo_size;
 print_raw:
-			memcpy(&val, ptr, spec->size);
+			/* a long double takes 10 bytes: print it as two words */
+			val = hi = 0;
+			lo_size = spec->size > 8 ? 8 : spec->size;
+			memcpy(&val, ptr, lo_size);
+			if (spec->size > 8)
+				memcpy(&hi, ptr + 8, spec->size > 16 ? 8 : spec->size - 8);
 
-			pr_out("  args[%d] %c%d: 0x%0*llx\n", i, ARG_SPEC_CHARS[spec->fmt],
-			       spec->size * 8, spec->size * 2, val);
+			if (spec->size > 8) {
+				pr_out("  args[%d] %c%d: 0x%0*llx%016llx\n", i, ARG_SPEC_CHARS[spec->fmt],
+				       spec->size * 8, (spec->size - 8) * 2, hi, val);
+			}
+			else {
+				pr_out("  args[%d] %c%d: 0x%0*llx\n", i, ARG_SPEC_CHARS[spec->fmt],
+				       spec->size * 8, spec->size * 2, val);
+			}
 
 			size = spec->size;
 		}
@@ -481,11 +493,19 @@ static void pr_retval(struct uftrace_fstack_args *args)
 			size = spec->size;
 		}
 		else {
-			long long val = 0;
+			unsigned long long val = 0, hi = 0;
 
-			memcpy(&val, ptr, spec->size);
-			pr_out("  retval %c%d: 0x%0*llx\n", ARG_SPEC_CHARS[spec->fmt],
-			       spec->size * 8, spec->size * 2, val);
+			/* a long double takes 10 bytes: print it as two words */
+			memcpy(&val, ptr, spec->size > 8 ? 8 : spec->size);
+			if (spec->size > 8) {
+				memcpy(&hi, ptr + 8, spec->size > 16 ? 8 : spec->size - 8);
+				pr_out("  retval %c%d: 0x%0*llx%016llx\n", ARG_SPEC_CHARS[spec->fmt],
+				       spec->size * 8, (spec->size - 8) * 2, hi, val);
+			}
+			else {
+				pr_out("  retval %c%d: 0x%0*llx\n", ARG_SPEC_CHARS[spec->fmt],
+				       spec->size * 8, spec->size * 2, val);
+			}
 
 			size = spec->size;
 		}
